@@ -180,6 +180,11 @@ pub fn kern_add_fd(fd: i32) {
         fds.push(fd);
     }
 }
+/// the next ioctls with this request number are refused by "the kernel" (recorded, answered -1 / ENOTTY)
+static KERN_FAIL_NR: std::sync::atomic::AtomicU64 = std::sync::atomic::AtomicU64::new(u64::MAX);
+pub fn kern_fail_nr(nr: Option<u64>) {
+    KERN_FAIL_NR.store(nr.unwrap_or(u64::MAX), std::sync::atomic::Ordering::SeqCst);
+}
 pub fn kern_end() -> Vec<IoctlRec> {
     KERN.lock().unwrap().take().map(|x| x.1).unwrap_or_default()
 }
@@ -232,6 +237,10 @@ pub unsafe extern "C" fn ioctl(fd: libc::c_int, req: libc::c_ulong, arg: *mut li
     }
     if let Some((_, recs)) = KERN.lock().unwrap().as_mut() {
         recs.push(IoctlRec { req, arg: bytes });
+    }
+    if KERN_FAIL_NR.load(std::sync::atomic::Ordering::SeqCst) == nr {
+        *libc::__errno_location() = libc::ENOTTY;
+        return -1;
     }
     0
 }
